@@ -20,11 +20,11 @@ from ..core.framework import Ctx, b2s, s2b
 
 SPEC = {
     "modules": ["HC.Props.C10"],
-    "extracted": ["Guards"],
-    "technique": "Lean 4 transducer theorems over the WSStream model (HC/Stream/Ws.lean): _handle_events is a stopping left fold (handleEvents = runEvs), batching/segmentation independence, receive fidelity for ALL message lists x fragmentations x control-frame interleavings by induction over a well-formed-by-construction session type, limit theorem generic in the payload kind with the EXTRACTED comparator, overflow invariant for all later inputs, send fidelity; tied by differential runs of the real WSStream (direct) and of TCPServer on asyncio+trio over HTTP/1.1 upgrade and HTTP/2 extended CONNECT with an independent wsproto client",
-    "level_text": "Proved in Lean for EVERY list of messages within the limit, every non-empty fragmentation of each (text or binary), every interleaving of pings/pongs and every cut of the event stream into batches: the application is put exactly the messages (kind, concatenated payload) in order, each once, nothing raises, the buffer is empty afterwards, and the frames sent are exactly one pong per ping with the same payload in order (receive_fidelity, segmentation_independence, ping_pong).  Limit (limit_text / limit_bytes, sizes in characters resp. bytes, extracted comparator `>`): if a fragment takes the accumulated size over websocket_max_message_size then exactly the earlier messages are delivered, close 1009 is sent, and the rest of the batch has no influence; for ALL later inputs no websocket.receive is ever put (nothing_after_overflow).  send_fidelity / send_sequence: websocket.send -> one frame of the same kind and payload, in order.  limit_total: after the overflow every later batch is handled without an exception and delivers nothing (F05, a TypeError on the next fragment of the other kind, was repaired in the repository).",
+    "extracted": ["Guards", "WsSend", "Atomic"],
+    "technique": "Lean 4 transducer theorems over the WSStream model (HC/Stream/Ws.lean): _handle_events is a stopping left fold (handleEvents = runEvs), batching/segmentation independence, receive fidelity for ALL message lists x fragmentations x control-frame interleavings by induction over a well-formed-by-construction session type, limit theorem generic in the payload kind with the EXTRACTED comparator, overflow invariant for all later inputs, send fidelity, frame integrity of the send side under every schedule of its several writer tasks (HC/Stream/WsWire.lean, hand-over granularity EXTRACTED); tied by differential runs of the real WSStream (direct) and of TCPServer on asyncio+trio over HTTP/1.1 upgrade and HTTP/2 extended CONNECT with an independent wsproto client",
+    "level_text": "Proved in Lean for EVERY list of messages within the limit, every non-empty fragmentation of each (text or binary), every interleaving of pings/pongs and every cut of the event stream into batches: the application is put exactly the messages (kind, concatenated payload) in order, each once, nothing raises, the buffer is empty afterwards, and the frames sent are exactly one pong per ping with the same payload in order (receive_fidelity, segmentation_independence, ping_pong).  Limit (limit_text / limit_bytes, sizes in characters resp. bytes, extracted comparator `>`): if a fragment takes the accumulated size over websocket_max_message_size then exactly the earlier messages are delivered, close 1009 is sent, and the rest of the batch has no influence; for ALL later inputs no websocket.receive is ever put (nothing_after_overflow).  send_fidelity / send_sequence: websocket.send -> one frame of the same kind and payload, in order.  limit_total: after the overflow every later batch is handled without an exception and delivers nothing (F05, a TypeError on the next fragment of the other kind, was repaired in the repository).  Several writers (send_frames_never_interleaved / send_stream_parses / send_fidelity_concurrent): for every number of tasks writing to the stream (application, reader task replies, ping task), every frame list and EVERY schedule of hand-overs and takes, the byte stream is a concatenation of whole frames and the client parses for each class of frame exactly what that task sent, in order; the granularity (one frame = one Data event = one append of the whole of it, on both carriers and workers) is read off the source (frame_hand_over_assumed); sliced_hand_over_interleaves shows the statement is false when a frame is handed over in pieces.",
     "level_note": "Trusted: Lean kernel; model HC/Stream/Ws.lean tied by differential runs; wsproto (frame parsing, UTF-8 decoding, permessage-deflate, the lazily parsed frame queue) is an input of the model - its events are taken from a tap on the library classes; h11/h2 carriers are exercised end to end only.  Malformed frames are outside C10 (C04).",
-    "rule": "session = (max size, message list with kinds/sizes around the limit, fragmentation in BYTES possibly inside a code point, pings/pongs before fragments and trailing, deflate) x read segmentation (one read, one byte per read, random k-way, every two-way split of short sessions) x carrier x worker; distinct = distinct (layer, carrier, worker, deflate, segmentation class, kinds, size classes, fragment counts, ctl placement); non-trivial = at least one message with >= 2 fragments or a size within 1 of the limit or a ping",
+    "rule": "session = (max size, message list with kinds/sizes around the limit, fragmentation in BYTES possibly inside a code point, pings/pongs before fragments and trailing, deflate) x read segmentation (one read, one byte per read, random k-way, every two-way split of short sessions) x carrier x worker; plus the writers family: the application sends messages up to 150 kB (around the HTTP/2 buffer marks and frame sizes) whilst the peer does not take what the server writes and sends pings / messages / lets the ping interval pass, so that the reader task and the ping task write to the stream while an application send is suspended; distinct = distinct (layer, carrier, worker, deflate, segmentation class, kinds, size classes, fragment counts, ctl placement); non-trivial = at least one message with >= 2 fragments or a size within 1 of the limit or a ping",
     "trusted": ["wsproto client/server framing and the WsClient frame serialiser as oracle for what the client sent / saw"],
     "partial": ["permessage-deflate with a control frame between the fragments of one message: wsproto 1.3.2 loses the per-message compression flag (library defect F30, known finding, observed end to end only; every violation in such a session carries deflate_ctl_inside_fragmented=true)"],
     "assumptions": ["clients send well-formed frames (valid UTF-8 in complete text messages, control frames <= 125 bytes)"],
@@ -168,7 +168,13 @@ def monitor(ctx: Ctx, case: dict, lg: dict, delivered: List[list], pongs: List[s
     if app_frames is not None:
         want = [list(m) for m in case["session"]["sends"]]
         if app_frames != want:
-            ctx.violation("app_to_client", case, {"got": _short(app_frames), "want": _short(want)}, sig)
+            i = next((k for k, (a, b) in enumerate(zip(app_frames, want)) if a != b), min(len(app_frames), len(want)))
+            where: Dict[str, Any] = {"message": i, "received": len(app_frames), "sent": len(want)}
+            if i < len(app_frames) and i < len(want) and app_frames[i][0] == want[i][0]:
+                a, b = app_frames[i][1], want[i][1]
+                off = next((k for k in range(min(len(a), len(b))) if a[k] != b[k]), min(len(a), len(b)))
+                where.update({"offset": off, "got_there": a[off:off + 12], "sent_there": b[off:off + 12], "got_len": len(a), "sent_len": len(b)})
+            ctx.violation("app_to_client", case, {"got": _short(app_frames), "want": _short(want), "first_difference": where}, sig)
 
 
 def _errname(errors: Any) -> str:
@@ -210,8 +216,14 @@ def _counts(ctx: Ctx, sess: dict, lg: dict, layer: str, carrier: str, worker: st
             except UnicodeDecodeError:
                 ctx.count("text_cut_inside_code_point", True)
     nontriv = any(len(m[2]) >= 2 or m[4] in ("max-1", "max", "max+1") for m in sess["msgs"]) or bool(lg["pings_all"])
+    wr = sess.get("writers")
+    if wr:
+        ctx.count("writers_family", f"{carrier}:{'ping_task+' if wr.get('srv_ping') else ''}reader_replies")
+        for m in sess["sends"]:
+            ctx.count("writers_app_send_kib", f"{m[0]}:{len(m[1].encode() if m[0] == 'text' else m[1]) // 16384 * 16}+")
     if nontriv:
-        ctx.distinct([layer, carrier, worker, sess["deflate"], seg, [(m[1], m[4], len(m[2]), [len(c) for c in m[3]]) for m in sess["msgs"]], len(sess["trail"])])
+        ctx.distinct([layer, carrier, worker, sess["deflate"], seg, [(m[1], m[4], len(m[2]), [len(c) for c in m[3]]) for m in sess["msgs"]], len(sess["trail"])]
+                     + ([[(m[0], len(m[1])) for m in sess["sends"]], wr] if wr else []))
 
 
 # --------------------------------------------------------------------------------------------------------------
@@ -324,12 +336,62 @@ def e2e_case(sess: dict, worker: str, carrier: str, seg: list) -> dict:
 def to_wsrun(case: dict) -> dict:
     sess = case["session"]
     lg = logical(sess)
-    client: List[list] = [m[:4] for m in sess["msgs"]] + [[k, p] for k, p in sess["trail"]] + [["flush"]]
+    wr = sess.get("writers")
+    if wr:
+        # several writers on the stream: the application starts sending when the client's first message has arrived; from then
+        # on the peer does not take what the server writes (the application's send is suspended somewhere on its way), and
+        # whatever else the client sends meanwhile is answered by the reader task (and the ping task runs) - then it reads again
+        client: List[list] = [["stall"], sess["msgs"][0][:4], ["flush"]]
+        for m in sess["msgs"][1:]:
+            client += [m[:4], ["flush"]]
+        for k, p in sess["trail"]:
+            client += [[k, p], ["flush"]]
+        if wr.get("srv_ping"):
+            client += [["sleep", 1.5 * wr["srv_ping"]]]
+        client += [["unstall"], ["flush"]]
+    else:
+        client = [m[:4] for m in sess["msgs"]] + [[k, p] for k, p in sess["trail"]] + [["flush"]]
     client += [["reply_close"]] if lg["over"] is not None else [["close", 1000], ["flush"]]
     client += [["eof"]]
-    app = [["recv"], ["send", {"type": "websocket.accept"}]] + [["send", send_msg(m)] for m in sess["sends"]] + [["recv_until_disconnect"]]
-    return {"worker": case["worker"], "carrier": case["carrier"], "deflate": sess["deflate"], "mask_seed": sess["mask_seed"],
-            "cfg": {"websocket_max_message_size": sess["max"]}, "app": app, "client": client, "seg": case["seg"]}
+    app = [["recv"], ["send", {"type": "websocket.accept"}]] + ([["recv"]] if wr else []) + [["send", send_msg(m)] for m in sess["sends"]] + [["recv_until_disconnect"]]
+    out = {"worker": case["worker"], "carrier": case["carrier"], "deflate": sess["deflate"], "mask_seed": sess["mask_seed"],
+           "cfg": {"websocket_max_message_size": sess["max"]}, "app": app, "client": client, "seg": case["seg"]}
+    if wr:
+        out["h2_window"] = 1 << 20          # flow control never holds the server back (a closed window is C08's subject, F73)
+        if wr.get("srv_ping"):
+            out["cfg"]["websocket_ping_interval"] = wr["srv_ping"]
+    return out
+
+
+# sizes (bytes) of what the application sends in the writers family: around the HTTP/2 frame size (16 KiB), the stream
+# buffer's marks (16 / 32 KiB, minus the 4 / 10 byte frame header) and the initial window, and well beyond them
+WRITER_SIZES = [16370, 16384, 30000, 32758, 32764, 32768, 33000, 49152, 65526, 65536, 70000, 100000, 131072, 150000]
+
+
+def gen_writers_session(rng: random.Random) -> dict:
+    """the application sends large messages while other tasks write to the same stream (module docstring (b))"""
+    mx = 1000
+    msgs = [["msg", "text", ["go"], [[]], "small"]]
+    for _ in range(rng.choice([0, 0, 1, 2])):
+        m = gen_msg(rng, rng.choice([5, 64]), 0.0)      # (sizes of the small limits: all within 1000)
+        m[4] = "small"
+        msgs.append(m)
+    trail = gen_ctl(rng, 0.6)
+    if not trail and not any(c for m in msgs for c in m[3]):
+        trail = [["ping", b2s(bytes(rng.randrange(256) for _ in range(rng.choice([0, 3, 125]))))]]
+    sends = []
+    for i in range(rng.choice([1, 1, 2, 3])):
+        n = rng.choice(WRITER_SIZES) if i == 0 or rng.random() < 0.5 else rng.choice([0, 1, 130, 5000])
+        n = max(0, n + rng.choice([0, 0, -1, 1, -10, 7]))
+        if rng.random() < 0.35:
+            sends.append(["text", rand_text(rng, n // 2)])
+        else:
+            sends.append(["bytes", b2s(rng.randbytes(n))])
+    sess = {"max": mx, "msgs": msgs, "trail": trail, "sends": sends, "deflate": rng.random() < 0.2, "mask_seed": rng.randrange(1 << 30),
+            "writers": {"srv_ping": rng.choice([None, None, 0.5])}}
+    if sess["deflate"] and logical(sess)["deflate_ctl_inside"]:
+        sess["deflate"] = False          # (F30: wsproto loses the compression flag, SPEC.partial - not what this family is about)
+    return sess
 
 
 def run_e2e(ctx: Ctx, cases: List[dict]) -> List[dict]:
@@ -425,6 +487,17 @@ def run(ctx: Ctx) -> None:
         for carrier in ("h1", "h2"):
             ecases.append(e2e_case(big, worker, carrier, ["one"]))
             ecases.append(e2e_case({**big, "deflate": True}, worker, carrier, ["k", 3, 5]))
+    # several writers on one stream: large application messages whilst the reader task answers pings / delivers messages and
+    # the ping task runs, the application's send being suspended meanwhile; every carrier x worker
+    fixed = {"max": 1000, "msgs": [["msg", "text", ["go"], [[]], "small"]], "trail": [["ping", "mid"]], "sends": [["bytes", b2s(bytes(range(256)) * 390)], ["text", "after"]],
+             "deflate": False, "mask_seed": 5, "writers": {"srv_ping": None}}
+    for worker in ("asyncio", "trio"):
+        for carrier in ("h1", "h2"):
+            ecases.append(e2e_case(fixed, worker, carrier, ["one"]))
+    for i in range(ctx.budget(16, 160)):
+        sess = gen_writers_session(rng)
+        seg = rng.choice([["one"], ["one"], ["k", rng.choice([2, 3]), rng.randrange(1 << 20)]])
+        ecases.append(e2e_case(sess, ["asyncio", "trio"][i % 2], ["h2", "h2", "h1", "h2"][(i // 2) % 4], seg))
     # F05 witness shape (design probe p_c10): over-limit binary, then text, on every carrier x worker
     f05 = {"max": 5, "msgs": [["msg", "text", [b2s("hé".encode()[:2]), b2s("hé".encode()[2:] + b"llo")], [[], [["ping", "p1"]]], "max"],
                                ["msg", "bytes", ["123456"], [[]], "max+1"], ["msg", "text", ["ok"], [[]], "small"]],
